@@ -455,6 +455,133 @@ theorem gvar_walk_safe (d : List Nat) (g : Gv) (hb : Bytes d) (hr : gvarRead d =
     obtain ⟨dv, k1, k2, k3⟩ := tuple_deltas_bounded p t d' hac hrd true
     exact ⟨⟨d', hrd⟩, by omega, dv, k1, by omega, k3⟩
 
+/-! ## `DeltaSetIndexMap` -/
+
+/-- **`DeltaSetIndexMap::read` + `get(index)` never panic and read inside `map_data`**: for every byte
+string and every `u32` index, `read` fails with `OutOfBounds` / `InvalidFormat` or succeeds; then the
+index arithmetic of `get` (`index.min(map_count − 1)` with the saturating `− 1`, `· entry_size`, the
+`1..4` byte entry read, `>> bit_count`, `(1 << bit_count) − 1`) cannot trap, a failing entry read is
+`OutOfBounds`, a successful one lies inside the `entry_size · map_count` bytes of map data
+(`clamped_index · entry_size + entry_size ≤ len`), both halves are `u16`s, and the answer is the one of
+C10's `Tent.dsimGet`. -/
+theorem dsim_get_safe (d : List Nat) (hb : Bytes d) (index : Nat) (hidx : index < 4294967296) :
+    dsimRead d ≠ .trap ∧
+    (∀ e, dsimRead d = .err e → e = .oob ∨ ∃ n, e = .invalidFormat n) ∧
+    ∀ m, dsimRead d = .ok m →
+      ∃ ef mc data, m.entryFormat = some ef ∧ m.mapCount = some mc ∧ m.mapData = some data ∧
+        data.length = entrySize ef * mc ∧ m.get index ≠ .trap ∧ (∀ e, m.get index = .err e → e = .oob) ∧
+        ∀ o i, m.get index = .ok (o, i) → o < 65536 ∧ i < 65536 ∧
+          min index (mc - 1) * entrySize ef + entrySize ef ≤ data.length ∧
+          Tent.dsimGet ef mc data index = some (o, i) := by
+  refine ⟨dsimRead_no_trap d hb, dsimRead_err d, ?_⟩
+  · intro m hm
+    obtain ⟨_, _, _, _, ef0, mc0, hef0, hmc0, hml, _, _⟩ := dsimRead_ok hb hm
+    obtain ⟨ef, mc, data, h1, h2, h3, h4, _, h6, h7, h8, _⟩ := dsimGet_facts hb hm index hidx
+    refine ⟨ef, mc, data, h1, h2, h3, ?_, h6, h7, h8⟩
+    -- `ef` is the truncated entry format; its entry size is the one the reader used
+    have e1 : ef = ef0 % 64 := by
+      unfold Dsim.entryFormat at h1
+      rw [(dsimRead_ok hb hm).1, hef0] at h1
+      injection h1 with h1; exact h1.symm
+    have e2 : mc = mc0 := by
+      unfold Dsim.mapCount at h2
+      rw [(dsimRead_ok hb hm).1, hmc0] at h2
+      injection h2 with h2; exact h2.symm
+    rw [h4, hml, e1, e2]
+    unfold entrySize
+    congr 1
+    omega
+
+/-! ## `ItemVariationData`, `ItemVariationStore` -/
+
+/-- **`delta_row_len` / `delta_sets_len` cannot overflow** for `u16` fields: a row has at most
+`4 · 65535` bytes and the value agrees with C10's `Tent.deltaRowLen` -/
+theorem delta_row_len_total (wdc ric : Nat) (hw : wdc < 65536) (hr : ric < 65536) :
+    ∃ r, deltaRowLen wdc ric = some r ∧ r ≤ 262140 ∧ r = Tent.deltaRowLen wdc ric :=
+  deltaRowLen_some wdc ric hw hr
+
+/-- **`ItemVariationData::read`, `region_indexes()`, `delta_set(inner)` never panic**: the unchecked
+`bytes_per_row * item_count` and `bytes_per_row * inner_index` stay far below `usize::MAX`, a row offset
+beyond the delta sets yields the empty row (`slice(offset..).unwrap_or_default()`), `ItemDeltas` stops
+after `region_index_count ≤ 65535` values without overflowing its `u16` position, and it never yields
+more deltas than there are region indices — so `region_indices.get(i)` in `compute_delta` cannot fail. -/
+theorem delta_set_safe (d : List Nat) (hb : Bytes d) (inner : Nat) (hin : inner < 65536) :
+    ivdRead d ≠ .trap ∧ (∀ e, ivdRead d = .err e → e = .oob) ∧
+    ∀ v, ivdRead d = .ok v →
+      ∃ ris ds, v.regionIndexes = some ris ∧ v.deltaSet inner = some ds ∧ ds.length ≤ ris.length ∧
+        ris.length ≤ 65535 ∧ ∀ x ∈ ds, I32 x := by
+  obtain ⟨h1, h2, _⟩ := ivdRead_facts d hb
+  refine ⟨h1, h2, ?_⟩
+  intro v hv
+  obtain ⟨ris, ds, a, b, c, e, _⟩ := ivd_getters hb hv inner hin
+  exact ⟨ris, ds, a, b, c, by omega, deltaSet_I32 hb hv inner ds b⟩
+
+/-- **a region handed out by `variation_regions().get(i)` lies inside the region array** and has
+`axis_count` triples: the loop of `VariationRegion::compute_scalar` is bounded by the axis count -/
+theorem region_get_in_bounds (rl : Vrl) (hb : Bytes rl.d) (hlen : 4 + rl.regLen ≤ rl.d.length) (ac : Nat)
+    (hac : rl.axisCount = some ac) (hacl : ac < 65536) (hrl : rl.regLen ≤ 65535 * (65535 * 6)) (idx : Nat) :
+    rl.region idx ≠ .trap ∧
+    ∀ axes, rl.region idx = .ok axes → axes.length = ac ∧ idx * (6 * ac) + 6 * ac ≤ rl.regLen := by
+  obtain ⟨h1, _, h3⟩ := region_facts rl hb hlen ac hac hacl hrl idx
+  exact ⟨h1, fun axes ha => ⟨(h3 axes ha).1, (h3 axes ha).2.1⟩⟩
+
+/-- **the walk of `compute_delta` / `compute_float_delta` never panics**: for every store, every outer /
+inner index and coordinates, the part in front of the arithmetic (`item_variation_data().get(outer)`,
+`variation_region_list()`, `region_indexes()`, `delta_set(inner)`, `regions.get(region_index)`) returns
+`Ok(0)` early, fails with `OutOfBounds` / `NullOffset` / `InvalidCollectionIndex(outer)` — never with
+the `MalformedData("invalid delta sets")` exit, which is dead — or hands the kernel at most 65535 `i32`
+deltas, each with the `i16` axes of its region. -/
+theorem ivs_walk_safe (d : List Nat) (s : Ivs) (hb : Bytes d) (h : ivsRead d = some s) (outer inner : Nat)
+    (hin : inner < 65536) (ce : Bool) :
+    s.deltaWalk outer inner ce ≠ .trap ∧
+    (∀ e, s.deltaWalk outer inner ce = .err e → e = .oob ∨ e = .nullOffset ∨ e = .invalidIndex outer) ∧
+    ∀ l, s.deltaWalk outer inner ce = .ok (some l) → l.length ≤ 65535 ∧
+      ∀ x ∈ l, I32 x.1 ∧ ∀ y ∈ x.2, I16 y.1 ∧ I16 y.2.1 ∧ I16 y.2.2 :=
+  deltaWalk_facts hb h outer inner hin ce
+
+/-- **`compute_delta` panics only if the C20 kernel traps** (`…_partial`; `hk` is the statement of
+C20's `computeDelta_no_trap`, whose hypotheses `ivs_walk_safe` establishes); `compute_float_delta`
+never panics -/
+theorem compute_delta_no_panic_partial (d : List Nat) (s : Ivs) (hb : Bytes d) (h : ivsRead d = some s)
+    (outer inner : Nat) (hin : inner < 65536) (coords : List Int) (hk : DeltaKernelTotal coords) :
+    s.computeDelta outer inner coords ≠ .trap ∧ s.computeFloatDelta outer inner coords ≠ .trap :=
+  ⟨(computeDelta_facts hb h outer inner hin coords hk).1, (computeDelta_facts hb h outer inner hin coords hk).2.1⟩
+
+/-- **`Hvar::{advance_width,lsb,rsb}_delta` and `Vvar::{advance_height,tsb,bsb,v_org}_delta` never
+panic** on any table bytes, glyph id and coordinates (`…_partial`: modulo the C20 kernel): the mapping
+is consulted through `DeltaSetIndexMap::get` (`dsim_get_safe`), the implicit index is
+`(0, gid as u16)`, the store through `compute_delta` -/
+theorem metrics_delta_no_panic_partial (d : List Nat) (hb : Bytes d) (vvar : Bool) (which gid : Nat)
+    (hw : which ≤ (if vvar then 3 else 2)) (hg : gid < 4294967296) (coords : List Int)
+    (hk : DeltaKernelTotal coords) : metricsDelta d vvar which gid coords ≠ .trap :=
+  metricsDelta_no_trap d hb vvar which gid hw hg coords hk
+
+/-! ## `Mvar::metric_delta` -/
+
+/-- **the binary search of `metric_delta` never indexes outside the records and terminates**: for
+every tag array of at most 65535 records the loop makes at most `len + 1` trips (the model's fuel
+suffices: `hi − lo` shrinks every trip), `(lo + hi) / 2` cannot overflow, `records[i]` is in range, and
+a hit is an index whose tag equals the one asked for -/
+theorem mvar_search_safe (tags : List Nat) (tag : Nat) (hn : tags.length ≤ 65535) :
+    ∃ r, mvarSearch tags tag (tags.length + 1) 0 tags.length = .ok r ∧
+      ∀ i, r = some i → i < tags.length ∧ tags[i]? = some tag := by
+  obtain ⟨r, hr, hp⟩ := mvarSearch_facts tags tag hn (tags.length + 1) 0 tags.length (Nat.le_refl _) (by omega)
+  exact ⟨r, hr, fun i hi => ⟨(hp i hi).2.1, (hp i hi).2.2⟩⟩
+
+/-- **`Mvar::read` + `metric_delta` never panic** (`…_partial`: modulo the C20 kernel) -/
+theorem mvar_metric_delta_no_panic_partial (d : List Nat) (hb : Bytes d) (tag : Nat) (coords : List Int)
+    (hk : DeltaKernelTotal coords) : mvarMetricDelta d tag coords ≠ .trap :=
+  mvarMetricDelta_no_trap d hb tag coords hk
+
+/-! ## `SegmentMaps` (avar) -/
+
+/-- **`SegmentMaps::read` + `apply` never panic** (`…_partial`: `hk` is the statement of C20's
+`avarApply_no_trap`): the loop runs over the `position_map_count` records that `read_array` validated,
+all of them `i16` pairs -/
+theorem segment_maps_apply_no_panic_partial (d : List Nat) (hb : Bytes d) (coord : Int)
+    (hk : AvarKernelTotal coord) : segmentMapsApply d coord ≠ .trap :=
+  segmentMapsApply_no_trap d hb coord hk
+
 /-! ## non-vacuity -/
 
 /-- an embedded peak + intermediate header for one axis: 4 + 2 + 4 bytes -/
@@ -503,6 +630,15 @@ example : (gvarRead exGvar).map (fun g =>
     (match g.dataForGid 0 with | .ok (some b) => b.length | _ => 0,
      match g.dataForGid 1 with | .err .oob => true | _ => false)) = some (12, true) := by
   decide +kernel
+
+/-- format 0, entry format 0x17 (2 byte entries, 8 bit inner index), 2 entries: index 5 is clamped to
+the last entry -/
+example : (match dsimRead [0, 0x17, 0, 2, 1, 2, 3, 4] with
+    | .ok m => (match m.get 0, m.get 5 with | .ok a, .ok b => some (a, b) | _, _ => none)
+    | _ => none) = some ((1, 2), (3, 4)) := by decide +kernel
+
+example : mvarSearch [10, 20, 30, 40] 30 5 0 4 = .ok (some 2) ∧ mvarSearch [10, 20, 30, 40] 35 5 0 4 = .ok none := by
+  constructor <;> rfl
 
 /-- the byte hypothesis is satisfiable -/
 example : Bytes exGvar := by unfold Bytes; decide
